@@ -364,3 +364,9 @@ package labelmap
 //@   ghost parsed3d bool = false
 //@   ghostset after "coord, err := dvid.StringToPoint3d(parts[4],": parsed3d = true
 //@   assert at "label, err := d.GetLabelAtScaledPoint(ctx.VersionID(), coord, scale, isSupervoxel)": parsed3d
+
+// ServeHTTP (C11, C20), structural contract: no variable of the request dispatcher is written by a
+// goroutine it starts and also used by the dispatcher afterwards (see neuronjson.Data.ServeHTTP).
+//@ func Data.ServeHTTP
+//@   prop C11 C20
+//@   structural
